@@ -98,7 +98,7 @@ mod c15 {
     }
 
     macro_rules! twins {
-        ($($name:ident = $f:ident::<$n:expr>;)*) => {$(
+        ($($name:ident = $f:ident, $n:literal;)*) => {$(
             #[kani::proof]
             #[kani::unwind(6)]
             #[kani::stub(std::rt::thread_cleanup, noop)]
@@ -109,11 +109,12 @@ mod c15 {
         )*};
     }
     twins! {
-        c15_twin_add_tablet_n0 = twin_add_tablet::<0>;
-        c15_twin_add_tablet_n1 = twin_add_tablet::<1>;
-        c15_twin_add_tablet_n2 = twin_add_tablet::<2>;
-        c15_twin_tablet_for_token_n1 = twin_tablet_for_token::<1>;
-        c15_twin_tablet_for_token_n2 = twin_tablet_for_token::<2>;
+        c15_twin_add_tablet_n0 = twin_add_tablet, 0;
+        // (add_tablet on a NON-empty list was tried with 1 and 2 tablets: draining drops `Tablet`s, whose drop glue reaches
+        //  `Arc<Node>` and hashbrown's table destructor; CBMC cannot see that the replica collections are empty and did
+        //  not finish in 20 min even with `Arc::drop_slow` stubbed - so the non-empty cases are covered by Verus only)
+        c15_twin_tablet_for_token_n1 = twin_tablet_for_token, 1;
+        c15_twin_tablet_for_token_n2 = twin_tablet_for_token, 2;
     }
 
     /// twin of C15.TableTablets.tablet_for_token.contract
